@@ -63,9 +63,9 @@ def add(wrapper, method, kind, mid):
          '  if (!old.has) {\n' + INVALID + bad + '  } else {\n' +
          '    __CPROVER_assert(g_called == %d, "postcondition: exactly the corresponding C++ operation was invoked");\n' % mid + good +
          '  }\n  CANARY_POINT;\n}\n')
-    # a wrapper that re-parses instead of calling its method is a violation (not an extraction break): ada::parse is abstract
-    # here and, when called, records an operation id that no wrapper expects
-    OBLS.append(Obl('C17.%s.faithful' % wrapper, ['C17', 'C02'], 'P#', h, roots=[wrapper], replace=[method], stub=['parse_agg'],
+    # the C++ method is abstract (contract stub: works whether or not the wrapper still calls it).  A wrapper that re-parses instead
+    # of calling its method is a violation, not an extraction break: ada::parse is abstract too and records an id no wrapper expects
+    OBLS.append(Obl('C17.%s.faithful' % wrapper, ['C17', 'C02'], 'P#', h, roots=[wrapper], stub=[method, 'parse_agg'],
                     specs={method: method_spec(mid, kind, const), 'parse_agg': FOREIGN_PARSE},
                     bufn=8, defines=['STR_CAP=4', 'BUF_START=1'], includes=INC, globals=[('omitted', 'const unsigned int')], unwind=6, timeout=300,
                     note='invalid handle => null/empty/false, nothing called, handle untouched; valid handle => exactly %s is called with the arguments passed through and its result returned unchanged' % method))
